@@ -457,7 +457,17 @@ def run(F, chk):
                                   "%s creates a NiUnknown block without setting hasUnknown in the same block" % fn["name"])
     # CopyFrom must carry the flag over
     cf = F.fn1("nifly::NifFile::CopyFrom")
-    copies = any(n["k"] == "Assign" and show(n["l"]) == "hasUnknown" and "hasUnknown" in show(n["r"]) for n in walk(cf["body"]))
+    def _lc3(n_):
+        try:
+            a_, b_ = (n_.get("loc") or "0:0").split(":")[:2]
+            return (int(a_), int(b_))
+        except ValueError:
+            return (0, 0)
+
+    # the copy of the flag has to come after the (conditional) Clear(), which resets it
+    last_clear3 = max([_lc3(n) for n in walk(cf["body"]) if n["k"] == "Call" and n.get("fn") == "nifly::NifFile::Clear"] or [(0, 0)])
+    copies = any(n["k"] == "Assign" and show(n["l"]) == "hasUnknown" and "hasUnknown" in show(n["r"]) and _lc3(n) > last_clear3
+                 for n in walk(cf["body"]))
     chk.instance(R3, ok=copies, sample={"fn": "NifFile::CopyFrom", "copies_flag": copies})
     if not copies:
         chk.violation("R3.3", "C03/R3.3:CopyFrom", where(cf),
